@@ -193,6 +193,39 @@ def seeded_entries():
 
     add("CP_PLSR", "default", 3.0,
         lambda off: (lambda rs, Xy=_reg(off): plsr_out(CP_PLSR(n_components=2, n_iter_max=5, random_state=rs), Xy[0], Xy[1])))
+
+    # ---- the same estimator OBJECT fitted again (an int seed stored in the object must give the same fit every time) -------
+    def refit(make, use):
+        """call(rs): for an int seed the estimator object is created once per history and re-used by later calls of that history
+        (`reset()` is invoked by the check at the start of every history); generators always get a fresh object."""
+        def build(off):
+            objs = {}
+
+            def call(rs):
+                if isinstance(rs, (int, np.integer)):
+                    if rs not in objs:
+                        objs[rs] = make(rs)
+                    est = objs[rs]
+                else:
+                    est = make(rs)
+                return use(est, off)
+
+            call.reset = objs.clear
+            return call
+        return build
+
+    add("CPRegressor", "same-object-refit", 2.0,
+        refit(lambda rs: CPRegressor(weight_rank=2, n_iter_max=3, random_state=rs, verbose=0), lambda est, off: reg_out(est, *_reg(off))))
+    add("TuckerRegressor", "same-object-refit", 3.0,
+        refit(lambda rs: TuckerRegressor(weight_ranks=[2, 2], n_iter_max=3, random_state=rs, verbose=0), lambda est, off: reg_out(est, *_reg(off))))
+    add("CP", "same-object-refit", 2.0,
+        refit(lambda rs: D.CP(2, n_iter_max=2, init="random", tol=0, random_state=rs), lambda est, off: est.fit_transform(_t3(off))))
+    add("Tucker", "same-object-refit", 2.0,
+        refit(lambda rs: D.Tucker([2, 2, 2], n_iter_max=2, init="random", tol=0, random_state=rs), lambda est, off: est.fit_transform(_t3(off))))
+    add("CP_NN_HALS", "same-object-refit", 4.0,
+        refit(lambda rs: D.CP_NN_HALS(2, n_iter_max=2, init="random", random_state=rs), lambda est, off: est.fit_transform(_t3(off, False))))
+    add("TensorRingALS", "same-object-refit", 2.0,
+        refit(lambda rs: D.TensorRingALS([2, 2, 2, 2], n_iter_max=2, random_state=rs), lambda est, off: est.fit_transform(_t3(off))))
     return E
 
 
